@@ -77,6 +77,12 @@ func vuEmv(c Cfg, in [][]float64, lag int) [][]RV {
 		box := Quot(v[j]/100000000, h[j]-l[j], math.Max(math.Abs(h[j]), math.Abs(l[j])))
 		r := Quot(dm, box.V, 0)
 		r.Ill = r.Ill || box.Ill
+		// the distance moved is a difference of two midpoints: its rounding is
+		// relative to THEM (1e-4 of their size at the 1e-9 tolerance, i.e. a few
+		// hundred ulps), not to the possibly cancelling difference
+		if s := 1e-4 * math.Max(math.Abs(h[i]+l[i]), math.Abs(h[i-1]+l[i-1])) / 2 / math.Abs(box.V); !bad(s) {
+			r.S = s
+		}
 		e[i] = r
 	}
 	out := vuOut(n, p)
@@ -91,6 +97,9 @@ func vuEmv(c Cfg, in [][]float64, lag int) [][]RV {
 			hist = math.Max(hist, math.Abs(e[i].V))
 		}
 		s, ill, mag := vuWinSum(e, k+p, p)
+		for _, x := range e[k+1 : k+p+1] {
+			mag = math.Max(mag, x.S)
+		}
 		out[k] = RV{V: s / float64(p), Ill: ill || bad(s), S: math.Max(mag, Resid(hist, 1/float64(p)))}
 	}
 	return One(out)
